@@ -1,12 +1,40 @@
-import VtProofs.VplLex
+import VtProofs.VplTyped
 /-!
 # C18 — every well-formed pipeline text parses to the pipeline it describes
 
 Property theorems about `VtModel.Vpl` (model of `versatiles_pipeline/src/vpl/parser.rs`, `vpl_node.rs`,
-the `VPLDecode` derive and `factory.rs`).  Helper lemmas: `VtProofs/Vpl*.lean`.
+the `VPLDecode` derive and `factory.rs`).  Helper lemmas: `VtProofs/Vpl{Lex,Value,Tree,Typed}.lean`.
+
+"Pipeline text in the documented syntax" = `render d c` for a written pipeline `c : CPipe d`
+(`VtProofs/VplTree.lean`): a syntax tree of nesting depth ≤ `d` together with its layout — every
+whitespace slot of the grammar (spaces, tabs, CR, LF), bare or quoted values, raw or escaped characters
+inside quotes, scalar or bracketed parameters, repeated keys, empty lists, empty source brackets.
+`treeOf d c` is the pipeline it describes (`mkProps` merges repeated keys the way the `BTreeMap` of the
+code does: values append in order).  `WF d c` only says that names/keys are identifiers, bare values
+are made of `[A-Za-z0-9._-]`, raw characters inside quotes are neither `\` nor `"`.
 -/
 namespace VtProps.C18
 open VtModel.Vpl
+
+/-! ## the main statement -/
+
+/-- **C18 (positive part)**: for every nesting depth, every syntax tree and every layout, the text parses
+    to exactly the operations, parameters and nested pipelines it describes. By induction over the depth;
+    covers every interaction of lists followed by sources, repeated keys, escapes inside nested pipelines. -/
+theorem parse_render (d : Nat) (c : CPipe d) (h : WF d c) : parseVpl (render d c) = .ok (treeOf d c) :=
+  parseVpl_render d c h
+
+/-- the same below any amount of spare recursion fuel, in front of any continuation `,…` / `]…` / end:
+    the form used inside source lists -/
+theorem parse_render_prefix (d f : Nat) (c : CPipe d) (h : WF d c) (hf : depthOf d c + 2 ≤ f) (tail : Str)
+    (ht : StopP tail) : parsePipeline f (render d c ++ tail) = .ok tail (treeOf d c) :=
+  pipe_fam_ge d f c h hf tail ht
+
+/-- one operation (`parse_node`) against any correct parser for the nested pipelines -/
+theorem parse_node {Pc : Type} (pp : P Pipeline) (ps : Pc → Str) (pt : Pc → Pipeline) (wf : Pc → Prop)
+    (hpp : PipeOK pp ps pt wf) (herr : PipeErr pp) (n : CNodeF Pc) (hn : n.WF wf) (tail : Str) (ht : Stop tail) :
+    parseNode pp (n.str ps ++ tail) = .ok tail (n.tree pt) :=
+  node_ok pp ps pt wf hpp herr n hn _ tail ht rfl
 
 /-! ## lexical layer -/
 
@@ -32,12 +60,163 @@ theorem bare_value (s : Str) (hs : IsBare s) (rest : Str) (hr : NW rest) :
 theorem identifier (s : Str) (hs : IsIdent s) (rest : Str) (hr : NoHead isIdentRest rest) :
     parseIdent (s ++ rest) = .ok rest s := parseIdent_ok hs hr
 
-/-- rejection: bad escape -/
+/-- `parse_value` on bare / quoted / bracketed values with any inner whitespace -/
+theorem value (v : CVal) (h : v.WF) (rest : Str) (hr : NW rest) : parseValue (v.str ++ rest) = .ok rest v.vals :=
+  parseValue_ok v h rest hr
+
+/-- `parse_property`: `key = value` -/
+theorem property (p : CProp) (h : p.WF) (rest : Str) (hr : NW rest) : parseProperty (p.str ++ rest) = .ok rest p.kv :=
+  parseProperty_ok p h rest hr
+
+/-! ## text outside the syntax is rejected -/
+
+/-- bad escape -/
 theorem bad_escape_rejected (qs : List QChar) (hq : ∀ q ∈ qs, q.WF) (e : Char) (he : unesc e = none) (r : Str) :
     parseQuoted ('"' :: (qstr qs ++ '\\' :: e :: r)) = .failure := parseQuoted_bad_escape qs hq e he r
 
-/-- rejection: missing closing quote -/
+/-- missing closing quote -/
 theorem unterminated_string_rejected (qs : List QChar) (hq : ∀ q ∈ qs, q.WF) :
     parseQuoted ('"' :: qstr qs) = .failure := parseQuoted_unterminated qs hq
+
+/-- missing `=` (whole text): `name <ws> word` not followed by `=` is rejected whatever follows -/
+theorem missing_eq_rejected {name k : Str} (hn : IsIdent name) (hk : IsIdent k) (w : Ws1) {r : Str}
+    (hr : NoHead isIdentRest r) (hne : ∀ t, dropWs r ≠ '=' :: t) :
+    parseVpl (name ++ (w.str ++ (k ++ r))) = .err := parseVpl_missing_eq hn hk w hr hne
+
+/-- unbalanced brackets, one too many (whole text): a complete pipeline followed by `]…` or `,…` is rejected -/
+theorem trailing_bracket_rejected (d : Nat) (c : CPipe d) (h : WF d c) (ch : Char) (t : Str)
+    (hc : stopPChar ch = true) : parseVpl (render d c ++ ch :: t) = .err := parseVpl_trailing d c h ch t hc
+
+/-- unbalanced brackets, one too few: a source list still open at the end of the text is a hard failure -/
+theorem unclosed_sources_rejected {Pc : Type} (pp : P Pipeline) (ps : Pc → Str) (pt : Pc → Pipeline) (wf : Pc → Prop)
+    (hpp : PipeOK pp ps pt wf) (p : Pc) (more : List Pc) (hp : wf p) (hm : ∀ q ∈ more, wf q) :
+    parseSources pp ('[' :: (ps p ++ (more.map (chunkPipe ps)).flatten)) = .failure :=
+  parseSources_unclosed pp ps pt wf hpp p more hp hm
+
+/-! ## unknown operations, missing and mistyped parameters are rejected -/
+
+theorem unknown_read_operation_rejected (name : Str) (props : List (Str × List Str)) (sources : List (List Node))
+    (rest : List Node) (h : findOp true name = none) : buildPipeline (.mk name props sources :: rest) = none :=
+  build_unknown_read name props sources rest h
+
+theorem unknown_transform_operation_rejected (fmt name : Str) (props : List (Str × List Str))
+    (sources : List (List Node)) (rest : List Node) (h : findOp false name = none) :
+    buildTail fmt (.mk name props sources :: rest) = none := build_unknown_transform fmt name props sources rest h
+
+theorem missing_required_rejected (props : List (Str × List Str)) (f : Str) (h : lookupProp props f = none) :
+    fieldOk props f .strReq = false ∧ fieldOk props f .u8Req = false ∧ fieldOk props f .f64x4Req = false :=
+  fieldOk_missing_required props f h
+
+theorem mistyped_number_rejected (props : List (Str × List Str)) (f v : Str)
+    (h : lookupProp props f = some [v]) (hv : parseUnsigned 255 v = none) :
+    fieldOk props f .u8Opt = false ∧ fieldOk props f .u8Req = false := fieldOk_bad_u8 props f v h hv
+
+/-- holds since fix 399e7529; before it every unknown word was silently `false` -/
+theorem mistyped_bool_rejected (props : List (Str × List Str)) (f v : Str) (h : lookupProp props f = some [v])
+    (hw : ∀ w ∈ ["1", "true", "yes", "ok", "0", "false", "no"], lower (trimAscii v) ≠ w.toList) :
+    fieldOk props f .bool = false := fieldOk_bad_bool props f v h hw
+
+theorem mistyped_array_rejected (props : List (Str × List Str)) (f : Str) (vs : List Str)
+    (h : lookupProp props f = some vs) (hb : vs.length ≠ 4 ∨ vs.all floatOk = false) :
+    fieldOk props f .f64x4Req = false ∧ fieldOk props f .f64x4Opt = false := fieldOk_bad_array props f vs h hb
+
+theorem multi_valued_scalar_rejected (props : List (Str × List Str)) (f : Str) (vs : List Str)
+    (h : lookupProp props f = some vs) (hl : vs.length ≠ 1) :
+    fieldOk props f .strReq = false ∧ fieldOk props f .strOpt = false ∧ fieldOk props f .bool = false ∧
+    fieldOk props f .u8Req = false ∧ fieldOk props f .u8Opt = false ∧ fieldOk props f .u32Opt = false ∧
+    fieldOk props f .f32Opt = false := fieldOk_not_single props f vs h hl
+
+/-- a field that does not decode, or (since fix 0e93cdd6) a parameter the operation does not declare,
+    fails the operation … -/
+theorem bad_field_fails_operation (props : List (Str × List Str)) (fields : List (Str × PTy)) (f : Str) (ty : PTy)
+    (hm : (f, ty) ∈ fields) (h : fieldOk props f ty = false) : decodeOk props fields = false :=
+  decodeOk_field props fields f ty hm h
+
+theorem unknown_parameter_fails_operation (props : List (Str × List Str)) (fields : List (Str × PTy)) (k : Str)
+    (vs : List Str) (hk : (k, vs) ∈ props) (hn : ∀ f ∈ fields, f.1 ≠ k) : decodeOk props fields = false :=
+  decodeOk_unknown_key props fields k vs hk hn
+
+/-- … and with it the whole pipeline -/
+theorem bad_parameters_fail_pipeline (name : Str) (props : List (Str × List Str)) (sources : List (List Node))
+    (rest : List Node) (o : OpSig) (h : findOp true name = some o) (hd : decodeOk props o.fields = false) :
+    buildPipeline (.mk name props sources :: rest) = none := build_read_decode name props sources rest o h hd
+
+theorem bad_parameters_fail_transform (fmt name : Str) (props : List (Str × List Str)) (sources : List (List Node))
+    (rest : List Node) (o : OpSig) (h : findOp false name = some o) (hd : decodeOk props o.fields = false) :
+    buildTail fmt (.mk name props sources :: rest) = none := build_tran_decode fmt name props sources rest o h hd
+
+/-! ## non-vacuity: a concrete written pipeline, its text, its well-formedness
+
+`a\tk="x y" k=[1 , "\""][ b|c,d ]`  -/
+
+def sp : Ws := [.sp]
+def leaf (pre : Ws) (name : String) (post : Ws) : CNode 0 :=
+  { pre := pre, name := name.toList, props := [], wS := [], srcs := none, post := post }
+
+def exNode : CNode 1 :=
+  { pre := [], name := "a".toList,
+    props := [ (⟨.tab, []⟩, ⟨"k".toList, [], [], .scalar (.quoted [.raw 'x', .raw ' ', .raw 'y'])⟩),
+               (⟨.sp, []⟩, ⟨"k".toList, [], [], .list [] (some (.bare "1".toList, [(sp, sp, .quoted [.esc .quote])])) []⟩) ],
+    wS := [],
+    srcs := some (.some ⟨leaf sp "b" [], [leaf [] "c" []]⟩ [⟨leaf [] "d" sp, []⟩]),
+    post := [] }
+def exPipe : CPipe 1 := ⟨exNode, []⟩
+
+example : render 1 exPipe = "a\tk=\"x y\" k=[1 , \"\\\"\"][ b|c,d ]".toList := by decide
+
+example : WF 1 exPipe := by
+  refine ⟨⟨⟨'a', [], rfl, rfl, by simp⟩, ?_, ?_⟩, by simp [exPipe]⟩
+  · intro x hx
+    simp only [exPipe, exNode, List.mem_cons, List.not_mem_nil, or_false] at hx
+    rcases hx with rfl | rfl
+    · refine ⟨⟨'k', [], rfl, rfl, by simp⟩, ?_⟩
+      intro q hq
+      simp only [List.mem_cons, List.not_mem_nil, or_false] at hq
+      rcases hq with rfl | rfl | rfl <;> exact ⟨by decide, by decide⟩
+    · refine ⟨⟨'k', [], rfl, rfl, by simp⟩, ⟨by decide, by decide⟩, ?_⟩
+      intro x hx
+      simp only [List.mem_cons, List.not_mem_nil, or_false] at hx
+      subst hx
+      intro q hq
+      simp only [List.mem_cons, List.not_mem_nil, or_false] at hq
+      subst hq; trivial
+  · have hl : ∀ (pre post : Ws) (c : Char), nodeWF 0 (leaf pre (String.singleton c) post) ↔ isAlpha c = true := by
+      intro pre post c
+      constructor
+      · rintro ⟨⟨c', t, e, hc, _⟩, _⟩
+        have : (String.singleton c).toList = [c] := by simp
+        simp only [leaf, this, List.cons.injEq] at e
+        rw [e.1]; exact hc
+      · intro hc
+        refine ⟨⟨c, [], by simp [leaf], hc, by simp⟩, by simp [leaf], trivial⟩
+    refine ⟨⟨(hl _ _ 'b').2 rfl, ?_⟩, ?_⟩
+    · intro n hn
+      simp only [List.mem_cons, List.not_mem_nil, or_false] at hn
+      subst hn; exact (hl _ _ 'c').2 rfl
+    · intro q hq
+      simp only [List.mem_cons, List.not_mem_nil, or_false] at hq
+      subst hq
+      exact ⟨(hl _ _ 'd').2 rfl, by simp⟩
+
+/-- the pipeline the worked example describes: the repeated key `k` collects `x y`, `1`, `"` in order -/
+example : treeOf 1 exPipe =
+    [Node.mk "a".toList [("k".toList, ["x y".toList, "1".toList, "\"".toList])]
+      [[.mk "b".toList [] [], .mk "c".toList [] []], [.mk "d".toList [] []]]] := by rfl
+
+/-! ## concrete verdicts evaluated by the kernel (small texts; larger ones run in the compiled driver) -/
+
+def isErr : Verdict → Bool | .err => true | _ => false
+def isOk : Verdict → Bool | .ok _ => true | _ => false
+
+example : isErr (parseVpl "a k".toList) = true := by decide
+example : isErr (parseVpl "a [b".toList) = true := by decide
+/-- `key=""` — rejected before fix d8507268 — is a pipeline -/
+example : isOk (parseVpl "a k=\"\"".toList) = true := by decide
+/-- `fast=banana` — silently `false` before fix 399e7529 — is an error, `fast=yes` is fine -/
+example : fieldOk [("fast".toList, ["banana".toList])] "fast".toList .bool = false := by decide
+example : (buildPipeline [.mk "from_debug".toList
+    [("fast".toList, ["banana".toList]), ("format".toList, ["pbf".toList])] []]).isSome = false := by decide
+example : (buildPipeline [.mk "from_debug".toList
+    [("fast".toList, ["yes".toList]), ("format".toList, ["pbf".toList])] []]).isSome = true := by decide
 
 end VtProps.C18
